@@ -211,6 +211,18 @@ class Interp:
         return bool(t)
 
     def decide(self, node, cond):
+        # one condition VALUE (the same object, e.g. a boolean mask used twice) has one truth value per run
+        memo = self.__dict__.setdefault("_decided", {})
+        if self.decision_log == [] and memo:
+            memo.clear()
+        hit = memo.get(id(cond))
+        if hit is not None and hit[0] is cond:
+            return hit[1]
+        r = self._decide(node, cond)
+        memo[id(cond)] = (cond, r)
+        return r
+
+    def _decide(self, node, cond):
         r = None
         if self.chooser is not None:
             r = self.chooser(self, node, cond)
@@ -808,6 +820,9 @@ class Interp:
         try:
             return self.domain.getitem(self, obj, idx, node)
         except IndexError as ex:
+            if "only integers" in str(ex) or "arrays used as indices" in str(ex):
+                # an index VALUE the model could not make concrete (not an out-of-range access of the analysed code)
+                raise Unsupported(f"index expression outside the modelled subset at {self.where(node)}: {ex}")
             me = ModelError(f"IndexError at {self.where(node)}: {ex}")
             me.exc_name = "IndexError"
             raise me
@@ -820,6 +835,8 @@ class Interp:
         try:
             self.domain.setitem(self, obj, idx, v, node)
         except IndexError as ex:
+            if "only integers" in str(ex) or "arrays used as indices" in str(ex):
+                raise Unsupported(f"index expression outside the modelled subset at {self.where(node)}: {ex}")
             me = ModelError(f"IndexError at {self.where(node)}: {ex}")
             me.exc_name = "IndexError"
             raise me
